@@ -3,6 +3,7 @@
 use std::io::{BufRead, Write};
 
 mod codec;
+mod entropy;
 mod prog;
 mod pure;
 mod ring;
@@ -23,6 +24,7 @@ fn main() {
         "prog" => prog::run_line,
         "codec" => codec::run_line,
         "xxh" => xxh::run_line,
+        "entropy" => entropy::run_line,
         _ => {
             eprintln!("usage: zh <pure> < cases");
             std::process::exit(2);
